@@ -16,7 +16,7 @@ from mc.par import Result
 LEVEL = "exploration"
 
 IDS = {"A": 7, "B": 3, "C": 100}
-KINDS = ["0/0", "1/1", "0/1", "A0|1", "A1|0", "B0|1", "B1|0", "./.", "0/.", "i0/1", "iA0|1", "hA1|1", "mA1|0"]
+KINDS = ["0/0", "1/1", "0/1", "A0|1", "A1|0", "B0|1", "B1|0", "./.", "0/.", "i0/1", "iA0|1", "hA1|1", "mA1|0", "hA0|."]
 KINDS_T = KINDS + ["C0|1", "iB1|0", "m0/1"]
 IDS_ALL = True
 ADDITIVE = ["variants", "phased", "unphased", "singletons", "blocks", "variant_per_block_sum", "bp_per_block_sum", "heterozygous_variants", "heterozygous_snvs", "phased_snvs"]
@@ -44,8 +44,11 @@ def build(chroms, enc, second_sample=False):
             if k2[0] in "ABC":
                 bid = IDS[k2[0]]
                 gt = k2[1:]
-                if enc == "PS" or hom:
+                if enc == "PS":
                     call = {"GT": gt, "PS": str(bid)}
+                elif hom:
+                    # a homozygous / half-missing call that carries an HP value of the set
+                    call = {"GT": gt.replace("|", "/"), "HP": f"{bid}-1,{bid}-2"}
                 else:
                     a0, a1 = gt.split("|")
                     # HP lists, per GT allele in order, the haplotype it belongs to
